@@ -245,6 +245,12 @@ func (loader *Loader) ResolveRefsIn(doc *T, location *url.URL) (err error) {
 				return
 			}
 		}
+		for _, name := range componentNames(components.Links) {
+			component := components.Links[name]
+			if err = loader.resolveLinkRef(doc, component, location); err != nil {
+				return
+			}
+		}
 	}
 
 	// Visit all operations
@@ -664,12 +670,15 @@ func (loader *Loader) resolveHeaderRef(doc *T, component *HeaderRef, documentPat
 		return nil
 	}
 
+	if err := loader.resolveContentRefs(doc, value.Content, documentPath); err != nil {
+		return err
+	}
 	if schema := value.Schema; schema != nil {
 		if err := loader.resolveSchemaRef(doc, schema, documentPath, []string{}); err != nil {
 			return err
 		}
 	}
-	return nil
+	return loader.resolveExampleRefs(doc, value.Examples, documentPath)
 }
 
 func (loader *Loader) resolveParameterRef(doc *T, component *ParameterRef, documentPath *url.URL) (err error) {
@@ -725,20 +734,15 @@ func (loader *Loader) resolveParameterRef(doc *T, component *ParameterRef, docum
 	if value.Content != nil && value.Schema != nil {
 		return errors.New("cannot contain both schema and content in a parameter")
 	}
-	for _, name := range componentNames(value.Content) {
-		contentType := value.Content[name]
-		if schema := contentType.Schema; schema != nil {
-			if err := loader.resolveSchemaRef(doc, schema, documentPath, []string{}); err != nil {
-				return err
-			}
-		}
+	if err := loader.resolveContentRefs(doc, value.Content, documentPath); err != nil {
+		return err
 	}
 	if schema := value.Schema; schema != nil {
 		if err := loader.resolveSchemaRef(doc, schema, documentPath, []string{}); err != nil {
 			return err
 		}
 	}
-	return nil
+	return loader.resolveExampleRefs(doc, value.Examples, documentPath)
 }
 
 func (loader *Loader) resolveRequestBodyRef(doc *T, component *RequestBodyRef, documentPath *url.URL) (err error) {
@@ -791,22 +795,44 @@ func (loader *Loader) resolveRequestBodyRef(doc *T, component *RequestBodyRef, d
 		return nil
 	}
 
-	for _, name := range componentNames(value.Content) {
-		contentType := value.Content[name]
+	return loader.resolveContentRefs(doc, value.Content, documentPath)
+}
+
+// resolveContentRefs resolves the references held by the media types of a
+// content map: their schema, their examples and the headers of their encodings.
+func (loader *Loader) resolveContentRefs(doc *T, content Content, documentPath *url.URL) error {
+	for _, name := range componentNames(content) {
+		contentType := content[name]
 		if contentType == nil {
 			continue
 		}
-		for _, name := range componentNames(contentType.Examples) {
-			example := contentType.Examples[name]
-			if err := loader.resolveExampleRef(doc, example, documentPath); err != nil {
-				return err
-			}
-			contentType.Examples[name] = example
+		if err := loader.resolveExampleRefs(doc, contentType.Examples, documentPath); err != nil {
+			return err
 		}
 		if schema := contentType.Schema; schema != nil {
 			if err := loader.resolveSchemaRef(doc, schema, documentPath, []string{}); err != nil {
 				return err
 			}
+		}
+		for _, name := range componentNames(contentType.Encoding) {
+			encoding := contentType.Encoding[name]
+			if encoding == nil {
+				continue
+			}
+			for _, name := range componentNames(encoding.Headers) {
+				if err := loader.resolveHeaderRef(doc, encoding.Headers[name], documentPath); err != nil {
+					return err
+				}
+			}
+		}
+	}
+	return nil
+}
+
+func (loader *Loader) resolveExampleRefs(doc *T, examples Examples, documentPath *url.URL) error {
+	for _, name := range componentNames(examples) {
+		if err := loader.resolveExampleRef(doc, examples[name], documentPath); err != nil {
+			return err
 		}
 	}
 	return nil
@@ -868,24 +894,8 @@ func (loader *Loader) resolveResponseRef(doc *T, component *ResponseRef, documen
 			return err
 		}
 	}
-	for _, name := range componentNames(value.Content) {
-		contentType := value.Content[name]
-		if contentType == nil {
-			continue
-		}
-		for _, name := range componentNames(contentType.Examples) {
-			example := contentType.Examples[name]
-			if err := loader.resolveExampleRef(doc, example, documentPath); err != nil {
-				return err
-			}
-			contentType.Examples[name] = example
-		}
-		if schema := contentType.Schema; schema != nil {
-			if err := loader.resolveSchemaRef(doc, schema, documentPath, []string{}); err != nil {
-				return err
-			}
-			contentType.Schema = schema
-		}
+	if err := loader.resolveContentRefs(doc, value.Content, documentPath); err != nil {
+		return err
 	}
 	for _, name := range componentNames(value.Links) {
 		link := value.Links[name]
@@ -1035,6 +1045,10 @@ func (loader *Loader) resolveSecuritySchemeRef(doc *T, component *SecurityScheme
 }
 
 func (loader *Loader) resolveExampleRef(doc *T, component *ExampleRef, documentPath *url.URL) (err error) {
+	if component.isEmpty() {
+		return errMUSTExample
+	}
+
 	if ref := component.Ref; ref != "" {
 		if component.Value != nil {
 			return nil
